@@ -1,14 +1,17 @@
 //go:build verif
 
-package mldsa44
+package mldsa44_test
 
 // C04 adapter for the exported ML-DSA entry points (shared harness: sign/internal/verifc04).
+// External test package: exported API only. The unexported wrappers unsafeSignInternal and
+// unsafeVerifyInternal have files of their own.
 
 import (
 	"testing"
 
 	"github.com/cloudflare/circl/sign"
 	"github.com/cloudflare/circl/sign/internal/verifc04"
+	. "github.com/cloudflare/circl/sign/mldsa/mldsa44"
 )
 
 func TestVerifC04_api(t *testing.T) {
@@ -22,9 +25,5 @@ func TestVerifC04_api(t *testing.T) {
 			return SignTo(sk.(*PrivateKey), msg, ctx, randomized, sig)
 		},
 		Verify: func(pk sign.PublicKey, msg, ctx, sig []byte) bool { return Verify(pk.(*PublicKey), msg, ctx, sig) },
-		SignInternal: func(sk sign.PrivateKey, mp []byte, rnd [32]byte) []byte {
-			return sk.(*PrivateKey).unsafeSignInternal(mp, rnd)
-		},
-		VerifyInternal: func(pk sign.PublicKey, mp, sig []byte) bool { return unsafeVerifyInternal(pk.(*PublicKey), mp, sig) },
 	})
 }
